@@ -14,7 +14,8 @@ SHARDS = {'quick': 4, 'thorough': 16}
 RULE = ('Byte contents (empty, arbitrary binary incl. NUL / 0x80-0xFF / newlines / CRLF, the placeholder text itself, '
         'sizes limit-1, limit, limit+1 for explicit limits of n bytes expressed as n/2^20 MB, the environment-variable '
         'limit 0 with 0/1-byte files, the 1 MB environment limit with files of 2^20-1, 2^20, 2^20+1 bytes, and files of '
-        'several MB under the default 500 MB limit and under 2 / 4 MB environment limits) x path '
+        'several MB under the default 500 MB limit and under 2 / 4 MB environment limits; explicit limits also with the '
+        'environment variable set to a different value - the explicit limit counts) x path '
         'passed positionally or by keyword x instance and static interceptions x input and output file data handlers x '
         'cassette type (in-memory, file, S3, async), always through a full program: record -> cassette -> fetch -> '
         'replay. Oracle: the file found at the path named by the REPLAYED call holds the recorded bytes (<= limit) or '
@@ -48,7 +49,11 @@ def check_file_case(ctx, case):
         limit_arg = None
         limit_bytes = 500 * 1024 * 1024
     else:
-        os.environ.pop(ENV, None)
+        # an explicit limit; the environment variable may be set as well (to something else): the explicit one counts
+        if case.get('env_also') is not None:
+            os.environ[ENV] = str(case['env_also'])
+        else:
+            os.environ.pop(ENV, None)
         limit_bytes = case['limit_bytes']
         limit_arg = limit_bytes / (1024.0 * 1024.0)
     work = tempfile.mkdtemp(prefix='verif-c20-')
@@ -177,7 +182,8 @@ def check_file_case(ctx, case):
     binary = any(b >= 0x80 or b in (10, 13) for b in bytearray(content[:4096]))
     ctx.case(case, near or binary, classes=(
         'cassette:' + case['cassette'], 'kw' if kw else 'positional', 'static' if static else 'instance',
-        'over-limit' if over else 'within-limit', 'env-limit' if case.get('env_limit') is not None else 'default-limit' if case.get('default_limit') else
+        'over-limit' if over else 'within-limit', 'explicit+env' if case.get('env_also') is not None else
+        'env-limit' if case.get('env_limit') is not None else 'default-limit' if case.get('default_limit') else
         'explicit-limit', 'size:>1MB' if len(content) > 2 ** 20 else 'size:<=1MB',
         'size:near-limit' if near else 'size:other', 'empty' if not content else 'nonempty'))
 
@@ -207,6 +213,8 @@ def cases(draw):
     else:
         content = draw(st.text(alphabet=u'ab\n\r\t é', max_size=20)).encode('utf-8')
         case['limit_bytes'] = limit
+    if 'limit_bytes' in case:
+        case['env_also'] = draw(st.sampled_from([None, None, 0, 500, 1]))
     case['content'] = binascii.hexlify(content).decode()
     return case
 
